@@ -1,5 +1,6 @@
 """C07 - after a unilateral close every entitled output is recovered, validly and in time (structural part)."""
 from engine import *
+import linforms
 import obligations
 import provenance
 import guards
@@ -493,3 +494,4 @@ def r07o(F):
 		out.append(Result('07.o', False, 'anchor:bump-candidates', 'blocks_disconnected: the overwrite clause of 06.h was not found'))
 	return out
 RULES.append(('07.o', 'blocks_disconnected re-queues a merged-back claim in its current state (06.h overwrite clause under C07)', r07o))
+RULES.append(('07.K', 'constant census of linear forms: every comparison (normalised to sum >= K over name-free atoms, a comparison and its negation being one form) and every maximal arithmetic expression of a reviewed function keeps its coefficients and its constant - a dropped or added `+ 1` / `- 1`, `<` for `<=` inside a computed bound, a scale factor applied twice or not at all, swapped operands of a comparison (rules/linforms.py; shapes that appear or disappear are not judged, the guard / arithmetic censuses judge those)', lambda F: linforms.for_property(F, 'C07', '07.K')))
